@@ -263,7 +263,7 @@ def run_history(rng, n_ops, oracles, rep, lean_jobs, ext_staging=None, layouts=N
                     lean_jobs.append((ll[0], ll[1], "%s on `%s`" % (o.name, " ".join(op.args)[:120]), list(log), ll[2]))
                 elif ll:
                     lean_jobs.append((ll[0], ll[1], "%s on `%s`" % (o.name, " ".join(op.args)[:120]), list(log)))
-            im = install_model_line(s)
+            im = install_model_line(s) if trace else None
             if im:
                 lean_jobs.append((im[0], "ok " + hx(render_observed(im[1])), "install script of `%s`" % " ".join(op.args)[:120], list(log)))
     finally:
@@ -310,7 +310,7 @@ def run(rep, prop, tier, seed, proof_broken=False):
                 else:
                     detail = "%s: Lean says %s, expected %s" % (what, got[:200], want[:200])
                 dis.append(dict(what=what, detail=detail, history=log))
-    rep.disagreements = len(dis)
+    rep.disagreements = (getattr(rep, "disagreements", 0) or 0) + len(dis)
     rep.sample(dict(lean_request=lean_jobs[0][0][:300], expected=lean_jobs[0][1][:200]) if lean_jobs else {})
     seen = set()
     for log, oname, f in all_fails:
@@ -382,6 +382,35 @@ class NewObjectGuard:
             want = None
         line = "script-guard %s %s" % (hx(rel), " ".join(roots))
         return line.strip(), want, dict(rc=s.res["rc"], changed=changed, rel=rel, err=s.res["err"][:200])
+
+
+class OthersUntouched:
+    """C08: an operation on one object leaves every other object byte for byte as it was; purge removes exactly
+    the named object"""
+    name = "others-untouched"
+
+    def check(self, s):
+        fails = []
+        for oroot, info in s.pre_objs.items():
+            if info.get("id") == s.op.oid:
+                continue
+            # nested roots (an id that is a path prefix of another id under a direct layout): the inner object's
+            # files are not the outer object's
+            inner = [r for r in s.pre_objs if r != oroot and r.startswith(oroot + "/")]
+            pre = {k: v for k, v in s.pre_tree.items() if (k == oroot or k.startswith(oroot + "/")) and not any(k == r or k.startswith(r + "/") for r in inner)}
+            post = {k: v for k, v in s.post_tree.items() if (k == oroot or k.startswith(oroot + "/")) and not any(k == r or k.startswith(r + "/") for r in inner)}
+            if pre != post:
+                diff = sorted(set(pre.items()) ^ set(post.items()))[:3]
+                fails.append("`%s %s` (rc=%d) changed the object %s at %s: %s" % (s.op.kind, s.op.oid, s.res["rc"], info.get("id"), oroot, diff))
+        if s.op.kind == "purge" and s.res["rc"] == 0:
+            gone = [r for r, i in s.pre_objs.items() if r not in s.post_objs]
+            extra = [r for r in gone if s.pre_objs[r].get("id") != s.op.oid]
+            if extra:
+                fails.append("`purge %s` removed other objects as well: %s" % (s.op.oid, extra))
+        return fails
+
+    def lean_lines(self, s):
+        return None
 
 
 class OthersStayValid:
